@@ -94,6 +94,10 @@ def r2(ctx):
     if not covs:
         raise AnalysisError("no empirical_covariance store")
     v = covs[0].value
+    if not (isinstance(v, App) and v.fn == "numpy.cov"):
+        ctx.unrecognised(fi, "the covariance is not computed by a numpy.cov call: how the estimator flag enters an explicit formula is not modelled",
+                         line=covs[0].stmt.lineno, role="bias:kw", found=str(v)[:100])
+        return
     bias = v.kwarg("bias") if isinstance(v, App) else None
     ctx.check(bias == Sym(flag), fi, "numpy.cov(bias=...) receives the flag parameter itself", line=covs[0].stmt.lineno,
               role="bias:kw", expected=f"bias={flag}", found=f"bias={bias}")
